@@ -567,7 +567,15 @@ func (p *pdr) parsePDI(pdiIEs []*ie.IE, appPFDs map[string]appPFD, ippool *IPPoo
 	return nil
 }
 
-func (p *pdr) parsePDR(ie1 *ie.IE, seid uint64, appPFDs map[string]appPFD, ippool *IPPool) error {
+func (p *pdr) parsePDR(ie1 *ie.IE, seid uint64, appPFDs map[string]appPFD, ippool *IPPool) (err error) {
+	// go-pfcp decoders trust the lengths embedded in some IEs (e.g. SDF Filter) and panic
+	// on a malformed payload; report that as a parsing error so that the request is rejected.
+	defer func() {
+		if r := recover(); r != nil {
+			err = ErrOperationFailedWithReason("parse PDR", fmt.Sprint("malformed IE: ", r))
+		}
+	}()
+
 	/* reset outerHeaderRemoval to begin with */
 	outerHeaderRemoval := uint8(0)
 	p.qerIDList = make([]uint32, 0)
